@@ -4,6 +4,7 @@ import (
 	"fmt"
 	"os"
 	"runtime/debug"
+	"strings"
 	"testing"
 
 	"github.com/bronlabs/bron-crypto/pkg/base/curves/k256"
@@ -61,4 +62,57 @@ func TestTriageNils(t *testing.T) {
 	fmt.Println("edited proof:", root)
 	np, err := n.nils(fiatshamir.Name, edited)
 	fmt.Println("edited nils:", np, err)
+}
+
+// TestTriageRangeModulus: the Paillier range proof accepts a response in which the modulus carried inside one
+// plaintext W1[i] was altered (the decoded value differs, the proof still verifies).
+func TestTriageRangeModulus(t *testing.T) {
+	if os.Getenv("VERIF_C08_TRIAGE") == "" {
+		t.Skip()
+	}
+	n := rangeCase(1024).ni()
+	proof, err := n.prove(fiatshamir.Name, proverCtx().build(), 0, "triage")
+	if err != nil {
+		t.Fatal(err)
+	}
+	fmt.Println("honest verify:", n.verify(fiatshamir.Name, verifierCtx().build(), stmtSel{}, proof))
+	root, _ := cbor.Parse(proof)
+	var leaf *cbor.Node
+	var path string
+	for _, r := range cbor.Leaves(root) {
+		if leaf == nil && strings.HasPrefix(r.Path, "$>Z>W1>") && strings.HasSuffix(r.Path, "natBytes") && strings.Contains(r.Path, "modulus") {
+			leaf, path = r.Node, r.Path
+		}
+	}
+	if leaf == nil {
+		t.Fatal("no modulus leaf found")
+	}
+	leaf.Data[len(leaf.Data)-1] ^= 1
+	edited := cbor.Encode(root)
+	fmt.Println("edited leaf:", path, "(last bit of the plaintext's modulus flipped)")
+	fmt.Println("edited verify:", n.verify(fiatshamir.Name, verifierCtx().build(), stmtSel{}, edited))
+	rec, rerr := n.recode(fiatshamir.Name, edited)
+	fmt.Println("re-encoding equals original:", rerr == nil && string(rec) == string(proof), "equals edited:", rerr == nil && string(rec) == string(edited))
+}
+
+// TestTriageCrash: an AND(2) batch-Schnorr Fiat-Shamir proof whose first response lost its "z" entry makes
+// sigand.Verify dereference a nil scalar inside an errgroup worker: the panic cannot be recovered and the process
+// dies (run this test alone; it is expected to kill the test binary with a Go crash report).
+func TestTriageCrash(t *testing.T) {
+	if os.Getenv("VERIF_C08_TRIAGE") != "crash" {
+		t.Skip()
+	}
+	k := newEC("k256", k256.NewCurve())
+	n := andCase(batchSchnorrCase(k, 2), 2).ni()
+	proof, err := n.prove(fiatshamir.Name, proverCtx().build(), 0, "triage")
+	if err != nil {
+		t.Fatal(err)
+	}
+	root, _ := cbor.Parse(proof)
+	z0 := cbor.Find(root, "$>Z[0]").Node // {"z": {...}}  ->  {}
+	z0.Items = nil
+	edited := cbor.Encode(root)
+	fmt.Println("edited proof:", root)
+	defer func() { fmt.Println("recovered (not reached when the panic is in a worker goroutine):", recover()) }()
+	fmt.Println("Verify returned:", n.verify(fiatshamir.Name, verifierCtx().build(), stmtSel{}, edited))
 }
